@@ -385,6 +385,8 @@ func schedRun(args []string) int {
 				flags := ""
 				opts := quartz.NewDefaultJobDetailOptions()
 				opts.Suspended, opts.Replace = susp, repl
+				// retries are configured but the job succeeds: it must still run once per fire time
+				opts.MaxRetries, opts.RetryInterval = r.Intn(3), time.Millisecond
 				nm := n
 				if r.Intn(15) == 0 {
 					nm = ""
